@@ -1,4 +1,5 @@
-//! Documents WITH front matter, front matter interpreted: the whole result of `parse_with_options` /
+//! Documents WITH front matter, front matter interpreted (and, with `-` for the front-matter argument, documents WITHOUT
+//! front matter under a `metadata_validator`: the `>>` arm, lean/CookModel/Analysis/MetaValidator.lean): the whole result of `parse_with_options` /
 //! `parse_metadata_with_options` (metadata mapping, servings, every diagnostic with its labels) against the model of
 //! `process_frontmatter` (lean/CookModel/Analysis/FrontMatter.lean, ops `recipe_fm` / `metaonly_fm`).
 //! `serde_yaml` stays external: the harness decodes the YAML slice with the decoder the crate uses and sends the
@@ -111,26 +112,33 @@ fn r_report(rep: &cooklang::error::SourceReport, yaml_failed: bool) -> String {
 pub fn fm_case(ctx: &mut Ctx, input: &str, ext_bits: u32, conv: u8, mode: u8) {
     let ext = Extensions::from_bits_retain(ext_bits);
     let Ok(first) = guarded(|| PullParser::new(input, Extensions::empty()).next().and_then(|e| match e { Event::YAMLFrontMatter(t) => Some(t.text().into_owned()), _ => None })) else { return };
-    let Some(yaml) = first else { return };
-    // the decoder of the crate (event_consumer.rs:236)
-    let decoded = serde_yaml::from_str::<serde_yaml::Mapping>(&yaml);
-    let (fm_arg, yaml_failed) = match &decoded {
-        Ok(m) => {
-            let whole = Value::Mapping(m.clone());
-            if has_tag(&whole) { ctx.count("fm:skipped (tagged value: the model's encoding has no payload for tags)"); return; }
-            if huge_exp(&whole) { ctx.count("fm:skipped (decimal exponent of 7+ digits)"); return; }
-            (format!("M{}", enc_yaml(&whole)), false)
+    // without front matter the validator is called by the `>>` arm (Analysis/MetaValidator.lean); the decoder is not used
+    let (fm_arg, yaml_failed) = match first {
+        None => ("-".to_string(), false),
+        Some(yaml) => {
+            // the decoder of the crate (event_consumer.rs:236)
+            let decoded = serde_yaml::from_str::<serde_yaml::Mapping>(&yaml);
+            match &decoded {
+                Ok(m) => {
+                    let whole = Value::Mapping(m.clone());
+                    if has_tag(&whole) { ctx.count("fm:skipped (tagged value: the model's encoding has no payload for tags)"); return; }
+                    if huge_exp(&whole) { ctx.count("fm:skipped (decimal exponent of 7+ digits)"); return; }
+                    (format!("M{}", enc_yaml(&whole)), false)
+                }
+                Err(e) => (format!("E{}", e.location().map(|l| l.index().to_string()).unwrap_or("~".into())), true),
+            }
         }
-        Err(e) => (format!("E{}", e.location().map(|l| l.index().to_string()).unwrap_or("~".into())), true),
     };
+    let no_fm = fm_arg == "-";
     let parser = CooklangParser::new(ext, if conv == 0 { Converter::empty() } else { Converter::bundled() });
     let desc = format!("front matter: ext={ext_bits} conv={conv} validator-mode={mode} input={input:?}");
-    ctx.count(&format!("fm:mode{mode}:{}", if yaml_failed { "yaml-error" } else { "decoded" }));
+    ctx.count(&format!("fm:mode{mode}:{}", if no_fm { "no-front-matter (>> path)" } else if yaml_failed { "yaml-error" } else { "decoded" }));
     // full parse
     {
         let log = Rc::new(RefCell::new(vec![]));
         let r = guarded(|| parser.parse_with_options(input, options(mode, log.clone())));
         let val = if mode == 0 { "-".to_string() } else { let l = log.borrow(); if l.is_empty() { "o11".to_string() } else { l.join(",") } };
+        if no_fm && mode != 0 { for v in log.borrow().iter() { ctx.count(&format!("fm:>>validator-verdict:{}:include={}:run_std_checks={}", &v[0..1], &v[1..2], &v[2..3])); } }
         let reply = match &r {
             Err(_) => "PANIC".to_string(),
             Ok(res) => {
@@ -201,12 +209,27 @@ pub fn gen_doc(rng: &mut Rng) -> String {
     s
 }
 
+/// documents WITHOUT front matter whose `>>` entries meet every verdict of the three validators (keys starting with `t`,
+/// containing `e`, of even length, `prep…`, `cook…`, `servings`, `tags`, `time`), config entries in between (no call)
+pub fn gen_old(rng: &mut Rng) -> String {
+    const KEYS: &[&str] = &["time", "prep time", "cook time", "prep_time", "cook_time", "duration", "servings", "serves", "yield", "tags", "tag", "author", "source", "locale", "title", "[mode]", "[duplicate]", "[x]", "x", "nota", "日本", "course", "ab", "abc"];
+    const VALS: &[&str] = &["1h", "10 min", "90", "a while", "2", "2|4", "muchas", "a, b", "", "Ana <http://a.b>", "en_US", "español", "steps", "ref", "4294967296", "0|2|4", "4|4"];
+    let mut s = String::new();
+    let n = 1 + rng.below(6);
+    for _ in 0..n {
+        s.push_str(&format!(">> {}: {}\n", rng.pick_str(KEYS), rng.pick_str(VALS)));
+        if rng.chance(1, 4) { s.push_str(rng.pick_str(&["\nMezclar @azúcar{1%kg}.\n\n", "\npaso\n\n", "@a{1/0}\n", "= Parte\n"])); }
+    }
+    if rng.chance(1, 4) { s = s.replace('\n', "\r\n"); }
+    s
+}
+
 /// the dedicated family, run by the C04 / C13 / C14 checks
 pub fn family(ctx: &mut Ctx, tag: u64) {
     let mut rng = Rng::new(ctx.seed ^ tag ^ 0xF407);
     let n = if ctx.thorough { 40_000 } else { 2_500 };
     for i in 0..n {
-        let s = if i % 5 == 4 { crate::gen::fm_scenario(&mut rng) } else if i % 11 == 10 { crate::gen::meta_scenario(&mut rng) } else { gen_doc(&mut rng) };
+        let s = if i % 7 == 6 { gen_old(&mut rng) } else if i % 5 == 4 { crate::gen::fm_scenario(&mut rng) } else if i % 11 == 10 { crate::gen::meta_scenario(&mut rng) } else { gen_doc(&mut rng) };
         let ext = match i % 3 { 0 => 0, 1 => 0xEEA, _ => crate::gen::ext_pattern(rng.below(256)) };
         fm_case(ctx, &s, ext, (i % 2) as u8, ((i / 2) % 4) as u8);
     }
